@@ -47,6 +47,7 @@ import base64
 import binascii
 import re
 from datetime import date, datetime, time, timedelta
+from decimal import Decimal
 from enum import Enum
 from typing import Union
 
@@ -254,6 +255,14 @@ class vCalAddress(str):
     def name(self, value:str):
         self.params["CN"] = value
 
+def _float_to_ical(value: float) -> str:
+    """Format a float as RFC 5545 FLOAT: digits and a dot, no exponent."""
+    text = repr(float(value))
+    if 'e' in text or 'E' in text:
+        return format(Decimal(text), 'f')
+    return text
+
+
 class vFloat(float):
     """Float
 
@@ -308,7 +317,7 @@ class vFloat(float):
         return self
 
     def to_ical(self):
-        return str(self).encode('utf-8')
+        return _float_to_ical(self).encode('utf-8')
 
     @classmethod
     def from_ical(cls, ical):
@@ -1576,7 +1585,7 @@ class vGeo:
         self.params = Parameters(params)
 
     def to_ical(self):
-        return f"{self.latitude};{self.longitude}"
+        return f"{_float_to_ical(self.latitude)};{_float_to_ical(self.longitude)}"
 
     @staticmethod
     def from_ical(ical):
